@@ -7,8 +7,9 @@ sd=/verif/seeded/$id; wt=/tmp/sv-$id; log=/tmp/sv-$id.log
 : > $log
 git -C /repo worktree remove --force $wt >/dev/null 2>&1; rm -rf $wt
 git -C /repo worktree add --detach $wt HEAD >>$log 2>&1 || { echo "RESULT $id worktree-failed"; exit 2; }
-if ! git -C $wt apply $sd/patch.diff >>$log 2>&1; then
-  if ! git -C $wt apply --3way $sd/patch.diff >>$log 2>&1; then echo "RESULT $id patch-does-not-apply"; git -C /repo worktree remove --force $wt; exit 2; fi
+pf=$sd/patch.diff; [ -f $sd/patch-rebased.diff ] && pf=$sd/patch-rebased.diff   # the same change on top of later hook/fix commits
+if ! git -C $wt apply $pf >>$log 2>&1; then
+  if ! git -C $wt apply --3way $pf >>$log 2>&1; then echo "RESULT $id patch-does-not-apply"; git -C /repo worktree remove --force $wt; exit 2; fi
 fi
 # the two emptied benchmark files of the sandbox are part of the expected state of /repo
 for f in $(cat /root/.vp/EMPTIED_FILES.txt 2>/dev/null); do [ -f /repo/$f ] && cp /repo/$f $wt/$f 2>/dev/null; done
@@ -28,5 +29,11 @@ rm -rf $wt/_b
 viol=$(grep -c '^VIOLATION' /tmp/sv-$id.check)
 echo "RESULT $id build=$brc tests=[$tsum rc=$trc] demo_with=$dw demo_without=$dwo check_rc=$crc violations=$viol"
 grep '^VIOLATION' /tmp/sv-$id.check | head -3
+for r in $(grep '^VIOLATION' /tmp/sv-$id.check | head -2 | sed 's/.*replay=\([^ ]*\).*/\1/'); do
+  python3 -c "
+import json,sys
+d=json.load(open('$r'))
+print('  REPLAY', {k:str(d[k])[:160] for k in ('kind','class','what','why','engine','origin','theorem','switch') if k in d})" 2>/dev/null
+done
 h=$(python3 -c "import hashlib;print(hashlib.sha1(b'$wt').hexdigest()[:8])"); rm -rf /verif/.build/alt-$h
 git -C /repo worktree remove --force $wt >/dev/null 2>&1; rm -rf $wt
